@@ -72,11 +72,12 @@ func PrintKnown(prop, key, msg string) {
 }
 
 // NextDeadline returns the smallest stored deadline strictly after now (promise timeouts, lease
-// ends, schedule occurrences), or 0.
+// ends, schedule occurrences) within reach of the simulated clock, or 0.
 func NextDeadline(sn core.Snapshot, now int64) int64 {
 	best := int64(0)
 	consider := func(v int64) {
-		if v > now && (best == 0 || v < best) {
+		// a lease end beyond any timeline (a ttl close to the largest int64) is not an instant the clock can land on
+		if v > now && v-now < 1<<40 && (best == 0 || v < best) {
 			best = v
 		}
 	}
